@@ -45,7 +45,7 @@ def history_lines(ctx):
     th = ctx.thorough()
     lines = []
     # (scenario, steps, datapack, treepack, max_faults)
-    plan = [(0, 5, 6000, 700, 100), (rng.choice([1, 2]), 5, 20000, 1, 60), (0, 7, 3000, 1, 100), (3, 3, 6000, 700, 80),
+    plan = [(0, 5, 6000, 700, 90), (rng.choice([1, 2]), 5, 20000, 1, 60), (0, 7, 3000, 1, 90), (3, 3, 6000, 700, 70),
             (4, rng.choice([3, 4, 5]), 20000, 20000, 90), (5, rng.choice([3, 4]), 20000, 20000, 90)]
     if th:
         plan = [(0, 6, 6000, 700, 0), (1, 8, 20000, 1, 0), (2, 6, 20000, 1, 0), (0, 8, 3000, 1, 0),
